@@ -22,32 +22,33 @@ const modPath = "github.com/resgateio/resgate"
 // Prog is the loaded, type-checked program in SSA form plus the indexes the
 // rules work on. Everything is rebuilt from the working tree on every run.
 type Prog struct {
-	roleMemo    map[string]*ssa.Function
-	globalSet   map[*ssa.Global]int // 1: only ever set to allocations, 2: anything else
-	addrArgs    map[*types.Var][]addrArg // field -> call sites handing the field's address to a helper that derefs it
-	esStates    map[*ssa.Function]map[ssa.Instruction]int
-	implDepth   int                                  // recursion depth of helperImplies
-	boundMakers map[*ssa.Function][]*ssa.MakeClosure // bound-method wrapper -> the places that make the method value
-	fieldSeen   map[string]string                    // anchor -> type, recorded for `resverif anchors`
-	Dir         string
-	Fset        *token.FileSet
-	Pkgs        []*packages.Package
-	SSA         *ssa.Program
-	Repo        []*ssa.Function          // every repository function incl. closures, sorted by name
-	ByNm        map[string]*ssa.Function // short name -> function
-	CG          *callgraph.Graph
-	Typs        map[string]*types.Package          // short pkg name ("server", "rescache", ...) -> package
-	parent      map[*ssa.Function]*ssa.MakeClosure // closure fn -> its (unique) MakeClosure
-	stores      map[*types.Var][]*ssa.Store        // field -> stores through FieldAddr
-	loads       map[*types.Var][]ssa.Instruction   // field -> loads (UnOp on FieldAddr, Field)
-	faddrs      map[*types.Var][]*ssa.FieldAddr
-	nAllFuncs   int
-	combs       map[*types.Func]map[int]Comb
-	combMissing []string
-	mayWrite    map[*ssa.Function]map[*types.Var]bool
-	initOnly    map[*types.Var]bool
-	ctxCache    *ctxInfo
-	fuzzy       []string // anchors resolved to a renamed object
+	roleMemo      map[string]*ssa.Function
+	globalSet     map[*ssa.Global]int      // 1: only ever set to allocations, 2: anything else
+	addrArgs      map[*types.Var][]addrArg // field -> call sites handing the field's address to a helper that derefs it
+	esStates      map[*ssa.Function]map[ssa.Instruction]int
+	implDepth     int                                  // recursion depth of helperImplies
+	boundMakers   map[*ssa.Function][]*ssa.MakeClosure // bound-method wrapper -> the places that make the method value
+	fieldSeen     map[string]string                    // anchor -> type, recorded for `resverif anchors`
+	Dir           string
+	Fset          *token.FileSet
+	Pkgs          []*packages.Package
+	SSA           *ssa.Program
+	Repo          []*ssa.Function          // every repository function incl. closures, sorted by name
+	ByNm          map[string]*ssa.Function // short name -> function
+	CG            *callgraph.Graph
+	Typs          map[string]*types.Package          // short pkg name ("server", "rescache", ...) -> package
+	parent        map[*ssa.Function]*ssa.MakeClosure // closure fn -> its (unique) MakeClosure
+	stores        map[*types.Var][]*ssa.Store        // field -> stores through FieldAddr
+	loads         map[*types.Var][]ssa.Instruction   // field -> loads (UnOp on FieldAddr, Field)
+	faddrs        map[*types.Var][]*ssa.FieldAddr
+	nAllFuncs     int
+	combs         map[*types.Func]map[int]Comb
+	combMissing   []string
+	mayWrite      map[*ssa.Function]map[*types.Var]bool
+	initOnly      map[*types.Var]bool
+	roleFieldBusy map[string]bool
+	ctxCache      *ctxInfo
+	fuzzy         []string // anchors resolved to a renamed object
 }
 
 // addrArg: a call that passes &x.f to a repository function which loads or
@@ -605,18 +606,19 @@ func (p *Prog) Field(q string) *types.Var {
 	// renamed beyond recognition: the only field of the recorded type that is not itself a named anchor
 	if want, ok := anchorFieldTypes[q]; ok {
 		hit := -1
+		ambiguous := false
 		for k, f := range all {
 			if _, named := anchorFieldTypes[q[:i+1]+f.Name()]; named {
 				continue
 			}
 			if anchorTypeMatches(f.Type(), want) {
 				if hit >= 0 {
-					return nil
+					ambiguous = true
 				}
 				hit = k
 			}
 		}
-		if hit >= 0 {
+		if hit >= 0 && !ambiguous {
 			p.fuzzy = append(p.fuzzy, q+" -> "+names[hit]+" (by type "+want+")")
 			return all[hit]
 		}
@@ -639,7 +641,64 @@ func (p *Prog) Field(q string) *types.Var {
 			return allFields[hit]
 		}
 	}
+	// renamed beyond recognition, with siblings of the same type: found by the role it plays
+	if rf, ok := roleFields[q]; ok {
+		if p.roleFieldBusy == nil {
+			p.roleFieldBusy = map[string]bool{}
+		}
+		if !p.roleFieldBusy[q] {
+			p.roleFieldBusy[q] = true
+			f := rf(p, st)
+			p.roleFieldBusy[q] = false
+			if f != nil {
+				p.fuzzy = append(p.fuzzy, q+" -> "+f.Name()+" (by role)")
+				return f
+			}
+		}
+	}
 	return nil
+}
+
+// roleFields: fields that are found by what is done with them when their name is gone.
+var roleFields = map[string]func(p *Prog, st *types.Struct) *types.Var{
+	// the HTTP server of the service: the *http.Server field that startHTTPServer stores to
+	"server.Service.h": func(p *Prog, st *types.Struct) *types.Var {
+		fn := p.Fn("(*server.Service).startHTTPServer")
+		if fn == nil {
+			return nil
+		}
+		var hit *types.Var
+		for _, g := range p.withHelpers(fn) {
+			for _, in := range instrsOf(g) {
+				s, ok := in.(*ssa.Store)
+				if !ok {
+					continue
+				}
+				fa, ok := s.Addr.(*ssa.FieldAddr)
+				if !ok {
+					continue
+				}
+				f := fieldOfAddr(fa)
+				if f == nil || !strings.HasSuffix(f.Type().String(), "net/http.Server") {
+					continue
+				}
+				owned := false
+				for k := 0; k < st.NumFields(); k++ {
+					if st.Field(k) == f {
+						owned = true
+					}
+				}
+				if !owned {
+					continue
+				}
+				if hit != nil && hit != f {
+					return nil
+				}
+				hit = f
+			}
+		}
+		return hit
+	},
 }
 
 // typeShape renders a type with the names of the repository's own named
@@ -769,6 +828,17 @@ func similarName(want string, cands []string) int {
 				sc = 250
 			} else if oneMore(ww, cw) {
 				sc = 240
+			} else if len(cw) == len(ww) && len(ww) >= 2 {
+				// one word replaced by another (unsubscribeDirect -> revokeDirect): the others are shared, in place
+				same := 0
+				for i := range cw {
+					if cw[i] == ww[i] && len(cw[i]) >= 4 {
+						same++
+					}
+				}
+				if same == len(ww)-1 {
+					sc = 200
+				}
 			}
 		}
 		if sc > best {
@@ -833,6 +903,18 @@ func (p *Prog) Method(q string) *types.Func {
 			ms = append(ms, n.Method(k))
 			names = append(names, n.Method(k).Name())
 		}
+	}
+	// a method that already had its name on the reference tree is itself, not somebody's renamed successor
+	if ref := refMethodNames(q[:i]); len(ref) > 0 {
+		var ms2 []*types.Func
+		var names2 []string
+		for k, nm := range names {
+			if !ref[nm] {
+				ms2 = append(ms2, ms[k])
+				names2 = append(names2, nm)
+			}
+		}
+		ms, names = ms2, names2
 	}
 	if j := similarName(q[i+1:], names); j >= 0 {
 		p.fuzzy = append(p.fuzzy, q+" -> "+names[j])
@@ -984,6 +1066,19 @@ func (p *Prog) flagFields(q string) []*types.Var {
 	}
 	if len(out) > 0 {
 		p.fuzzy = append(p.fuzzy, q+" -> separate bool fields")
+	}
+	return out
+}
+
+// refMethodNames: the method names the type ("server.Subscription") had on the reference tree.
+func refMethodNames(typ string) map[string]bool {
+	out := map[string]bool{}
+	for _, n := range loadGolden().Funcs {
+		for _, pre := range []string{"(*" + typ + ").", "(" + typ + ")."} {
+			if strings.HasPrefix(n, pre) {
+				out[n[len(pre):]] = true
+			}
+		}
 	}
 	return out
 }
